@@ -10,7 +10,8 @@ from . import c02, c03, c06
 ARTEFACTS = ["G4-listings"]
 RULE = ("fresh processes in which 2..16 threads are released together by a barrier on their first-ever calls into the library (so "
         "CPU-feature detection itself races), each thread running its own C02/C03 history (Rust crate) or C06 history (C library) on "
-        "its own instances; every thread's outputs are compared with the model's sequential prediction for that thread's script (and "
+        "its own instances (one third of the processes: staggered first calls; one third: hundreds of short calls per thread through "
+        "every entry point with per-thread keys and contexts); every thread's outputs are compared with the model's sequential prediction for that thread's script (and "
         "the spec); plus a scan of the sources and of the C objects' symbol tables for writable globals other than the detection "
         "caches; non-trivial = every process run; distinct = distinct set of per-thread scripts")
 ASSUMPTIONS = ["the schedules explored are the ones the OS scheduler produced in the processes run; the interleaving model proves the detection-cache protocol benign for all schedules",
@@ -48,8 +49,25 @@ class ThreadStage:
         for p in range(self.procs):
             nthreads = rng.choice([2, 3, 4, 8, 16])
             secs = []
-            staggered = (p % 2 == 1)
+            staggered = (p % 3 == 1)
+            hammer = (p % 3 == 2)
             for t in range(nthreads):
+                if hammer:
+                    # many short calls through every entry point, each thread with its own key / context / input: maximises
+                    # contention on any process-wide state keyed by API arguments (a memo of the last key, context, length...)
+                    ctx = hexs(bytes(rng.randrange(32, 127) for _ in range(rng.choice([1, 8, 31, 64]))))
+                    key = key_hex(rng)
+                    sec = []
+                    for i in range(250):
+                        k = rng.choice([0, 1, 64, 65, 1024, 1025, 3000])
+                        if self.impl == "rs":
+                            sec.append(rng.choice([f"O hash derive {ctx} {pat(k, rng)}", f"O hash keyed {key} {pat(k, rng)}", f"O hash hash {pat(k, rng)}"]))
+                            if i % 25 == 0:
+                                sec += [f"H new a derive {ctx}", f"H upd a {pat(k, rng)}", "H fin a", "H reset a", f"H upd a {pat(7, rng)}", "H fin a"]
+                        else:
+                            sec += [f"C init a {rng.choice(['derive ' + ctx, 'keyed ' + key, 'hash'])}", f"C upd a {pat(k, rng)}", "C fin a 32"]
+                    secs.append(sec)
+                    continue
                 if staggered:
                     # staggered first calls: the time spent generating the first input differs per thread, so one thread is
                     # deep inside a multi-chunk update while another is still inside feature detection
